@@ -217,6 +217,20 @@ theorem from_int_spec (v : Int) :
     okFromInt [-1, 0, 1, 2] v (outPy CDSPhase.value (GenP.phaseOfInt v)) = true :=
   ⟨strandOfInt_spec v, frameOfInt_spec v, phaseOfInt_spec v⟩
 
+/-- T12g the methods REGENERATED from gene/cds_frame.py (`CDSFrame.from_int`, `CDSPhase.from_int`: `return CDSFrame(value)`
+    / `CDSPhase(value)`) are the enum-by-value look-ups of T12, whose member values are tied to the regenerated member
+    tables in `Props/C15` (`Gen.cdsFrameMembers`, `Gen.cdsPhaseMembers`): a changed body or a changed member value
+    breaks a proof. -/
+theorem from_int_generated (v : Int) :
+    Gen.CDSFrame_from_int v = GenP.frameOfInt v ∧ Gen.CDSPhase_from_int v = GenP.phaseOfInt v ∧
+    okFromInt [-1, 0, 1, 2] v (outPy CDSFrame.value (Gen.CDSFrame_from_int v)) = true ∧
+    okFromInt [-1, 0, 1, 2] v (outPy CDSPhase.value (Gen.CDSPhase_from_int v)) = true := by
+  have h1 : Gen.CDSFrame_from_int v = GenP.frameOfInt v := by
+    unfold Gen.CDSFrame_from_int; cases GenP.frameOfInt v <;> rfl
+  have h2 : Gen.CDSPhase_from_int v = GenP.phaseOfInt v := by
+    unfold Gen.CDSPhase_from_int; cases GenP.phaseOfInt v <;> rfl
+  exact ⟨h1, h2, by rw [h1]; exact frameOfInt_spec v, by rw [h2]; exact phaseOfInt_spec v⟩
+
 /-- T13 `Strand.from_symbol` (GENERATED kernel `Gen.Strand_from_symbol`), ALL strings: `+ - .` give the member with that
     symbol, everything else ValueError. -/
 theorem from_symbol_spec (s : List Char) :
